@@ -16,63 +16,10 @@
 
    What does not survive is in C07_Refuted.v. *)
 From SG Require Import Base.Prelude C07.Allocator C07.AllocatorInv C07.AllocatorProofs C07.Cluster C07.ClusterInv C07.ClusterProofs.
+From SG Require Export C07.ClusterRollbackU C07.ClusterRollbackM.
 Open Scope N_scope.
 
 (* ================= 1. uniqueness ================= *)
-
-Definition wfU (hw : N) (a : node) : Prop :=
-  n_last a <= n_max a /\ n_max a <= hw /\ 1 <= n_batch a /\ n_batch a <= 10 /\
-  (if n_stopped a then n_last a = n_max a else True).
-
-Lemma wfU_mono hw hw' a : hw <= hw' -> wfU hw a -> wfU hw' a.
-Proof. unfold wfU. intros Hc (H1 & H2 & H3 & H4 & H5). repeat split; try lia; auto. Qed.
-
-(* local facts about ANY step in ANY state with a sane window *)
-Definition goodU (c hw : N) (a : node) (c' : N) (a' : node) (ev : list event) : Prop :=
-  wfU (N.max hw c') a' /\
-  Forall (fun e => forall s, covers e s -> heldN a s \/ (c < s /\ s <= c')) ev /\
-  (forall s, heldN a' s -> heldN a s \/ (c < s /\ s <= c')) /\
-  excl ev /\
-  (* what a step of a node claims it no longer holds (the foreign increment is attributed to node 0, whose
-     window it does not touch: it can only collide with it when the counter was set back) *)
-  Forall (fun e => forall s, covers e s -> heldN a' s -> heldN a s /\ c < s /\ s <= c') ev /\
-  incl (singles ev) (handed ev) /\ NoDup (singles ev) /\
-  Forall nonempty ev.
-
-Ltac uproj_goal :=
-  cbv beta iota zeta delta [n_last n_max n_batch n_once n_pc n_stopped n_crashed fst snd
-                             heldN wfU covers covered excl hsorted hand_lt nonempty handed singles flat_map app
-                             incl].
-
-Ltac ufinish :=
-  unfold goodU; uproj_goal;
-  repeat match goal with |- _ /\ _ => split end;
-  forall_list; uproj_goal;
-  unfold target_of, maxU64 in *; intros; break_ifs;
-  try solve [ intros; lia
-            | intros; intuition lia
-            | intros; try discriminate; intuition (try discriminate; try lia)
-            | constructor
-            | repeat constructor; cbn; intuition (try discriminate; try lia)
-            | intros ? HH; cbn in HH; intuition (subst; cbn; auto) ].
-
-Lemma xstep_node_goodU c hw a o c' a' ev :
-  wfU hw a -> xstep_node c a o = (c', a', ev) -> goodU c hw a c' a' ev.
-Proof.
-  intros W H.
-  destruct a as [l m b ro p stp cr].
-  unfold wfU in W; xproj_red W.
-  destruct W as (W1 & W2 & W3 & W4 & W5).
-  unfold maxBatchSize, idleBatchSize, sequenceBatchMultiplier, MaxSequencesToRelease, syncSeqCorrectionValue in *.
-  destruct o; cbn [xstep_node xactor] in H;
-    unfold xgt, xturn, gt_finish, xnext, xrelease_unused, release_range,
-           maxBatchSize, idleBatchSize, sequenceBatchMultiplier, MaxSequencesToRelease, syncSeqCorrectionValue in H;
-    xproj_red H;
-    destruct stp; destruct cr; destruct p as [|px pr|[pfl pd|pkx] pc|[pfl pd|pkx]|px pr]; xproj_red H;
-    repeat (break_ifs; xproj_red H);
-    inv H; unfold target_of, maxU64 in *; break_ifs;
-    try solve [ufinish].
-Qed.
 
 (* the step disposes only of numbers its node already held *)
 Definition no_fresh_claim (a a' : node) (ev : list event) : Prop :=
@@ -256,77 +203,6 @@ Proof.
 Qed.
 
 (* ================= 2. per-node monotonicity and the floor under quiet rollbacks ================= *)
-
-Definition floor_ok (fl : option N) (l : N) : Prop :=
-  match fl with Some x => target_of x <= l | None => True end.
-
-(* what a live node knows about the counter at its program points, as long as the counter did not go back
-   since the call started *)
-Definition Jlive (c : N) (a : node) : Prop :=
-  n_last a <= n_max a /\ 1 <= n_batch a /\ n_batch a <= 10 /\
-  match n_pc a with
-  | PIdle => True
-  | PGt x r => n_last a = n_max a /\ r <= c /\ n_max a < target_of x
-  | PFixCas (KRes fl _) corr => n_last a = n_max a /\ n_max a + n_batch a + 500 <= c + corr /\ floor_ok fl (n_last a)
-  | PFixCas (KGt x) corr => n_last a = n_max a /\ n_last a + 500 <= c + corr /\ n_max a < target_of x
-  | PFixIncr (KRes fl _) => n_last a = n_max a /\ n_max a + n_batch a + 500 <= c /\ floor_ok fl (n_last a)
-  | PFixIncr (KGt x) => n_last a = n_max a /\ n_last a + 500 <= c /\ n_max a < target_of x
-  | PGtFixed x r => n_last a = n_max a /\ r <= c /\ n_last a < r /\ n_max a < target_of x
-  end.
-
-Definition JN (c : N) (a : node) : Prop := dead a = true \/ Jlive c a.
-
-Lemma Jlive_mono c c' a : c <= c' -> Jlive c a -> Jlive c' a.
-Proof.
-  unfold Jlive. intros Hc (H1 & H2 & H3 & H4). repeat split; auto.
-  destruct (n_pc a) as [|x r|[fl d|x] corr|[fl d|x]|x r]; intuition lia.
-Qed.
-
-Lemma JN_mono c c' a : c <= c' -> JN c a -> JN c' a.
-Proof. intros Hc [H | H]; [left; exact H | right; eapply Jlive_mono; eauto]. Qed.
-
-Definition goodM (c : N) (a : node) (i : N) (c' : N) (a' : node) (ev : list event) : Prop :=
-  c <= c' /\ JN c' a' /\
-  n_last a <= n_last a' /\
-  Forall (fun e => match e with EHand j s _ => j = i /\ n_last a < s /\ s <= n_last a' | _ => True end) ev /\
-  hsorted ev /\
-  Forall (fun e => match e with EHand _ s (Some x) => x < maxU64 -> x < s | _ => True end) ev.
-
-Ltac mproj_goal :=
-  cbv beta iota zeta delta [n_last n_max n_batch n_once n_pc n_stopped n_crashed fst snd dead orb
-                             JN Jlive floor_ok hsorted hand_lt].
-
-Ltac mfinish :=
-  unfold goodM; mproj_goal;
-  repeat match goal with |- _ /\ _ => split end;
-  forall_list; mproj_goal;
-  unfold target_of, maxU64 in *; intros; break_ifs;
-  try solve [ intros; lia
-            | intros; intuition lia
-            | left; reflexivity
-            | right; repeat split; intros; try lia; intuition lia
-            | intros; try discriminate; intuition (try discriminate; try lia)
-            | constructor
-            | repeat constructor; cbn; intuition (try discriminate; try lia) ].
-
-Lemma xstep_node_goodM c a o c' a' ev :
-  JN c a -> is_rollback o = false -> xstep_node c a o = (c', a', ev) -> goodM c a (xactor o) c' a' ev.
-Proof.
-  intros W NR H.
-  destruct a as [l m b ro p stp cr].
-  unfold JN, Jlive, dead, floor_ok in W; xproj_red W.
-  unfold maxBatchSize, idleBatchSize, sequenceBatchMultiplier, MaxSequencesToRelease, syncSeqCorrectionValue in *.
-  destruct o; try discriminate NR; cbn [xstep_node xactor] in H;
-    unfold xgt, xturn, gt_finish, xnext, xrelease_unused, release_range,
-           maxBatchSize, idleBatchSize, sequenceBatchMultiplier, MaxSequencesToRelease, syncSeqCorrectionValue in H;
-    xproj_red H;
-    destruct stp; destruct cr; destruct p as [|px pr|[[pfl|] pd|pkx] pc|[[pfl|] pd|pkx]|px pr]; xproj_red H;
-    repeat (break_ifs; xproj_red H);
-    inv H; unfold target_of, maxU64 in *; break_ifs;
-    try solve [mfinish];
-    (destruct W as [W | (W1 & W2 & W3 & W4)]; [discriminate W|]);
-    try solve [mfinish].
-Qed.
 
 (* the counter goes back only while every live node is idle *)
 Fixpoint run_quiet (st : cluster) (ops : list xop) : Prop :=
